@@ -634,7 +634,7 @@ class C05(Prop):
                 "NV.C05.tie_context_fields_saved", "NV.C05.tie_every_field_saved_is_restored", "NV.C05.tie_context_globals",
                 "NV.C05.tie_frame_registers", "NV.C05.tie_frame_saved_is_restored", "NV.C05.tie_all_globals_classified",
                 "NV.C05.tie_classes_match_source", "NV.C05.tie_command_giver_stack", "NV.C05.tie_callback_handlers",
-                "NV.C05.tie_backend_shapes", "NV.C05.tie_catch_value_order", "NV.C05.tie_handler_flag", "NV.C05.tie_error_handler_slots", "NV.C05.tie_vital_destruct_order", "NV.C05.tie_error_handlers_are_leaves", "NV.C05.tie_handler_effects", "NV.C05.tie_spread_count", "NV.C05.consume_clears_spread_count", "NV.C05.tie_restore_clears_spread_count",
+                "NV.C05.tie_backend_shapes", "NV.C05.tie_catch_value_order", "NV.C05.tie_handler_flag", "NV.C05.tie_error_handler_slots", "NV.C05.tie_vital_destruct_order", "NV.C05.tie_error_handlers_are_leaves", "NV.C05.tie_handler_effects", "NV.C05.tie_spread_count", "NV.C05.consume_clears_spread_count", "NV.C05.tie_restore_clears_spread_count", "NV.C05.tie_restore_frameless", "NV.C05.restoreContext_frameless",
                 "NV.C05.restoreContext_spread",
                 "NV.C05.vital_records_before_blanking", "NV.C05.vital_nested_refused", "NV.C05.popN_fixNames", "NV.C05.vitalFinish_good", "NV.C05.tie_handler_limit_state", "NV.C05.tie_hook_globals_apart", "NV.C05.raise_sets_catch_value_after_handler",
                 "NV.C05.driver_restores", "NV.C05.model_satisfies_spec_driver",
@@ -780,6 +780,10 @@ class C05(Prop):
         out.append("/-- restore_context restores command_giver and the two guards -/\ndef restoreRestoresCgAndGuards : Bool := %s"
                    % ("true" if "command_giver = econ->save_command_giver" in rc and "restore_object_limits" in rc else "false"))
         pops = len(re.findall(r"pop_control_stack\s*\(\)", rc))
+        mt = re.search(r"if\s*\(\s*csp\s*>\s*econ->save_csp\s*\)", rc)
+        out.append("/-- restore_context unwinds the control stack only `if (csp > econ->save_csp)`: when no frame was pushed since the "
+                   "recovery point was set, the (stale) frame above csp is not touched -/\ndef restoreTestsCspBeforeUnwinding : Bool := %s"
+                   % ("true" if mt and mt.start() < pos(rc, "pop_control_stack") else "false"))
         out.append("/-- restore_context clears the spread count: `num_varargs = 0;` -/\ndef restoreClearsSpreadCount : Bool := %s"
                    % ("true" if pos(rc, "num_varargs = 0") >= 0 else "false"))
         out.append("/-- restore_context: number of pop_control_stack() calls -/\ndef restorePopFrameCalls : Nat := %d" % pops)
@@ -1135,6 +1139,18 @@ class C05(Prop):
         evaluates = any(l.split()[0] in ("inject", "run", "injectco", "injectbe", "injectsafe", "injectsafefp") for l in lines if l.strip())
         if evaluates and "/c05/gen/t.c" not in srcs:
             return False
+        # generated files that the LPC sources themselves load (prep(), go()) must stay as well
+        import re
+        for l in lines:
+            f = l.split()
+            if len(f) >= 3 and f[0] == "src":
+                try:
+                    text = bytes.fromhex(f[2]).decode(errors="replace")
+                except ValueError:
+                    continue
+                for ref in set(re.findall(r'"(/c05/gen/\w+)"', text)):
+                    if ref + ".c" not in srcs:
+                        return False
         for l in lines:
             f = l.split()
             if len(f) == 3 and f[0] == "load" and f[2].startswith("/c05/gen/") and f[2] + ".c" not in srcs:
@@ -1324,6 +1340,28 @@ class C05(Prop):
                                     fns=['void sf (int x, int y, int z) { error ("boom1\\n"); }',
                                          'void sk (int x, int y, int z) { VL ("say in-sk"); }',
                                          "void sg () { %s %s }" % (DECL, stmt)]))
+        # frameless errors: an error raised under a recovery point BEFORE any frame was pushed since it was set (a safe
+        # function-pointer call whose owner is destructed), at a call depth where the control-stack slot above csp was last used
+        # by a call made from ANOTHER object; restore_context must not touch that stale frame
+        aobj = '#include "/include/vcommon.h"\nvoid go () { "/c05/probe"->twice (1); }\n'
+        dead_prep = ('if (p0 = find_object ("/c05/fpo")) destruct (p0); p0 = load_object ("/c05/fpo"); '
+                     'notify_fail (p0->getfp ()); destruct (p0); load_object ("/c05/gen/AO");')
+        ao_ops = "(call other t 0 0 (call other t 1 1))"
+        cmd_ops = ("(call other u1 0 0 (tmp 1 (withcg u1 (safefp u1 0 0 "
+                   "(craise *Owner </c05/fpo> of function pointer is destructed.)))))")
+        dead_ops = ao_ops + " " + cmd_ops
+        for outer in (False, True):
+            call = '"/c05/gen/AO"->go (); "/c05/user"->deadcmd ();'
+            B.append(fixed_case("b-frameless-dead-fp%s" % ("-caught" if outer else ""),
+                                ('"/c05/gen/AO"->go (); ' + CATCHSTMT % '"/c05/user"->deadcmd ()') if outer else call,
+                                (ao_ops + " (catch %s) (saycatch)" % cmd_ops) if outer else dead_ops,
+                                prep=dead_prep, extra_files={"AO": aobj}, inject="run t run"))
+        # … the same frameless error INSIDE the master's error handler (script 64): no master apply pushes a frame over the stale
+        # slot there
+        for name, stmt, hops in (("uncaught", "f1 ();", "(call local t 0 0 (raise boom1))"),
+                                 ("caught", CATCHSTMT % "f1 ()", "(catch (call local t 0 0 (raise boom1))) (saycatch)")):
+            B.append(fixed_case("b-frameless-in-handler-%s" % name, stmt, hops, fns=['void f1 () { error ("boom1\\n"); }'],
+                                prep=dead_prep + " master ()->set_hscript (64);", extra_files={"AO": aobj}, inject="run t run"))
         # last_verb (query_verb()): an error in a verb function must not leave it set after the command
         for name, stmt, bops in (("say", 'VL ("say x");', "(say x)"), ("raise", 'error ("boom1\\n");', "(raise boom1)"),
                                  ("throw", 'throw ("t1");', "(throw t1)")):
@@ -1367,7 +1405,7 @@ class C05(Prop):
     # ---- oracle self-test: the string judge must reject hand-made bad traces (one per clause) ----
     def extra_checks(self, ctx, tier, rng):
         snap = "sp=-1 csp=-1 cg=u1 co=0 po=0 prog=0 ct=0 fp=-1 pc=null fio=0 vio=0 ctx=0 ld=0 rd=0 cgs=0 qv=0 nva=0 mn=ok sn=ok"
-        probe = "caught *probe-err ; probe lit=2 lc=3 ve=5 tp=u1 po=0 d=0 l=0 a=3,4 e=*probe-err  co=42 side in=0 hb=0"
+        probe = "caught *probe-err ; probe lit=2 lc=3 ve=5 tp=u1 po=0 d=0 l=0 a=3,4 e=*probe-err  co=42 bal=1 side in=0 hb=0"
         head = ["base " + snap, "probe0 " + probe]
         hb1 = probe.replace("hb=0", "hb=1")     # a heart-beat case: the heart beat of t is on before every evaluation
 
@@ -1393,6 +1431,7 @@ class C05(Prop):
             ("probe-destruct", [out(["done 1"], pr=probe.replace("d=0", "d=*Only this_object() can be destructed"))], "probe fault differs"),
             ("half-install", [out(["caught nf", "catch nf", "done 1"], pr=probe.replace("in=0", "in=1"))], "half-install"),
             ("catch-value", [out(["caught *boom1", "catch *other", "done 1"])], "catch-value"),
+            ("co-changed", [out(["err *x", "say back co-changed", "done 1"])], "current_object not restored"),
             ("scratch", [out(["say handler lit=4 scratch-mismatch", "err *x", "fault-top"])], "scratch"),
             ("efun-result", [out(["caught *boom1", "catch *boom1", "say r=3,1,2 result-mismatch", "done 1"])], "efun-result"),
             ("catch-value-zero", [out(["caught *boom1", "catch 0", "done 1"])], "catch-value"),
